@@ -30,7 +30,16 @@ func Debug(c *mc.Ctx) {
 		f := strings.Split(d, "|")
 		depth := 3
 		fmt.Sscanf(f[1], "%d", &depth)
-		runIC(c, "C04", c04Oracle, fix.Options{}, f[0], strings.Split(f[2], ","), depth)
+		o, prop := c04Oracle, "C04"
+		if len(f) > 3 {
+			switch f[3] {
+			case "C02":
+				o, prop = c02Oracle, "C02"
+			case "C06":
+				o, prop = c06Oracle, "C06"
+			}
+		}
+		runIC(c, prop, o, fix.Options{}, f[0], strings.Split(f[2], ","), depth)
 		fix.Cleanup()
 		return
 	}
